@@ -1,6 +1,15 @@
+//! mc-ledger — property group "ledger codecs and identities": C05..C08.
+
+pub mod artefacts;
+pub mod locate;
+pub mod mutate;
+
+mod c05;
+
 fn main() {
     let ctx = mc_core::Ctx::from_args();
     match ctx.prop.as_str() {
-        p => mc_core::report::machinery_failure(&format!("mc-ledger does not serve {p} yet")),
+        "C05" => c05::run(ctx),
+        p => mc_core::report::machinery_failure(&format!("mc-ledger does not serve {p}")),
     }
 }
